@@ -17,10 +17,21 @@ package obfs4
 // C03: fewer bytes than the minimum client handshake are answered with try-again, the buffer is not consumed.
 //@ func (t Transport) WrapConnection(data *bytes.Buffer, c net.Conn, phantom net.IP, regManager transports.RegManager) (transports.Registration, net.Conn, error)
 //@   requires data != nil && regManager != nil
+// (the try-again sentinel exists before the call: it is not an error value made during it)
+//@   requires !fresh(transports.ErrTryAgain)
 //@   ensures @C04: result2 == nil ==> typeis(result1, *deadlineConn) && unboxptr(result1, *deadlineConn) != nil && unboxptr(result1, *deadlineConn).under == c
 //@   ensures @C03: old(len(bufStr(data))) < ClientMinHandshakeLength ==> result2 == transports.ErrTryAgain && result0 == nil && result1 == nil && bufStr(data) == old(bufStr(data))
+// C04 (recognition of an obfs4 first flight, however it is cut): once the minimum client handshake (141 bytes: the
+// representative, the minimum padding, mark and MAC) has arrived, try-again is answered only after the whole candidate
+// list was gone through, and each candidate's mark is searched in everything received so far over the full range of
+// legal padding lengths - so a complete first flight of any padding length is never put off for more bytes.
+//@   atcall findMarkMac before: assert @C04: arg2 == 32 + ClientMinPadLength && arg3 == MaxHandshakeLength
+//@   atcall findMarkMac before: assert @C04: len(arg1) == len(bufStr(data))
+//@   atcall Buffer).Len#2 before: snap swept := true
+//@   ensures @C04: old(len(bufStr(data))) >= ClientMinHandshakeLength && result0 == nil && result2 == transports.ErrTryAgain ==> defined(swept)
 //@ loop 1:
-//@   invariant data != nil && regManager != nil && old(len(bufStr(data))) >= ClientMinHandshakeLength
+//@   invariant data != nil && regManager != nil && old(len(bufStr(data))) >= ClientMinHandshakeLength && !defined(swept)
+//@   invariant bufStr(data) == old(bufStr(data))
 
 //@ func (c *deadlineConn) SetDeadline(t time.Time) error
 //@   requires c != nil && c.under != nil
@@ -48,6 +59,7 @@ package obfs4
 //@   atcall Read#2 before: assert @C01: arg0 == rand && len(arg1) == 20 && drawn(rand) == old(drawn(rand)) + 32
 //@   atcall X25519 before: assert @C01: len(arg0) == 32 && arg1 == curve25519.Basepoint
 //@   ensures @C01: result1 == nil ==> drawn(rand) == old(drawn(rand)) + 52 && result0.PrivateKey != nil && result0.PublicKey != nil && result0.NodeID != nil
+//@   assigns drawn
 //@ func (t *ClientTransport) PrepareKeys(pubkey [32]byte, sharedSecret []byte, dRand io.Reader) error
 //@   requires t != nil && dRand != nil
 //@   atcall generateObfs4Keys before: assert @C01: arg0 == dRand
